@@ -100,11 +100,12 @@ Create2(k1, v1, k2, v2, r) ==
 StampNow(r) == r = Val(Stamp) /\ stamp' = Stamp /\ UNCHANGED <<keys, val, attached, now, deck>>
 
 (* ---- the share as a mapping of its fields ---- *)
-\* share[k] = v : no stamp ("don't update stamp here since used by change"); a bad name is a KeyError
+\* share[k] = v : no stamp ("don't update stamp here since used by change"); a bad name is refused the way a mapping
+\* refuses a key (KeyError); the AttributeError that Data documents for such a name is admitted as well
 SetItem(k, v, r) ==
     \/ r = Ok /\ Valid(k) /\ UNCHANGED <<stamp, attached, now, deck>>
               /\ keys' = PutKeys(keys, k) /\ val' = PutVal(val, k, v)
-    \/ Rejected(r, "KeyError") /\ ~Valid(k)
+    \/ (Rejected(r, "KeyError") \/ Rejected(r, "AttributeError")) /\ ~Valid(k)
 GetItem(k, r) == r = (IF Has(k) THEN Val(val[k]) ELSE Err("KeyError")) /\ UNCHANGED vars
 Contains(k, r) == r = Bool(Has(k)) /\ UNCHANGED vars
 DelItem(k, r) ==
@@ -142,7 +143,7 @@ Next ==
     \/ \E r \in ValResults \cup {Err("IndexError")} : Pull(r)
     \/ \E r \in {Val(x) : x \in Time \cup {None}} : StampNow(r)
     \/ \E k \in AnyName, v \in Vals, r \in {Ok, Err("AttributeError")} : Update1(k, v, r) \/ Change1(k, v, r) \/ Create1(k, v, r)
-    \/ \E k \in AnyName, v \in Vals, r \in {Ok, Err("KeyError")} : SetItem(k, v, r)
+    \/ \E k \in AnyName, v \in Vals, r \in {Ok, Err("KeyError"), Err("AttributeError")} : SetItem(k, v, r)
     \/ \E k \in AnyName, r \in ValResults \cup {Err("KeyError")} : GetItem(k, r)
     \/ \E k \in AnyName, r \in {Ok, Err("KeyError")} : DelItem(k, r)
     \/ \E k \in AnyName, r \in {Bool(TRUE), Bool(FALSE)} : Contains(k, r)
@@ -189,7 +190,8 @@ FieldOrder == [][data' = data \/ /\ \A a, b \in Range(keys) \cap Range(keys') :
 \* a rejected operation leaves the share as it was
 RejectedUnchanged == [][UNCHANGED vars \/ ~(\E k \in AnyName, v \in Vals :
                             \/ Update1(k, v, Err("AttributeError")) \/ Change1(k, v, Err("AttributeError"))
-                            \/ Create1(k, v, Err("AttributeError")) \/ SetItem(k, v, Err("KeyError")))]_vars
+                            \/ Create1(k, v, Err("AttributeError")) \/ SetItem(k, v, Err("KeyError"))
+                            \/ SetItem(k, v, Err("AttributeError")))]_vars
 \* the deck is first in first out: elements enter on the right and leave on the left, one at a time
 DeckFifo == [][deck' = deck \/ (\E v \in Vals : deck' = Append(deck, v)) \/ (deck # <<>> /\ deck' = Tail(deck))]_vars
 GulpIgnoresNone == [][deck' = deck \/ ~Gulp(None, Ok)]_vars
